@@ -27,7 +27,7 @@ pub fn def() -> CheckDef {
 }
 
 fn info(tier: Tier) -> CheckInfo {
-    CheckInfo {
+    let mut ci = CheckInfo {
         id: "C17",
         level: "model_checking",
         rule: format!(
@@ -36,7 +36,9 @@ fn info(tier: Tier) -> CheckInfo {
             if tier.is_quick() { "3" } else { "3 and 4" }
         ),
         assumptions: vec!["scripted storers acknowledge every write in part 1".into()],
-    }
+    };
+    ci.rule.push_str(" Added: both parts also through the blocking Dht API; an accepted second put must reach a storer; every storer reply delivered one, two and three times.");
+    ci
 }
 
 const REL: [&str; 4] = ["identical", "lower-seq", "equal-seq-other-value", "higher-seq"];
